@@ -36,6 +36,14 @@
 #define QENTEM_VERIF_PARSE_STEP(token)
 #endif
 
+// Verification hook (off unless QENTEM_VERIF and QENTEM_VERIF_RENDER_EVENT are defined): a yield point before every tag
+// the renderer expands, used to force thread interleavings.
+#if defined(QENTEM_VERIF) && defined(QENTEM_VERIF_RENDER_EVENT)
+#define QENTEM_VERIF_RENDER_STEP(tag) QENTEM_VERIF_RENDER_EVENT(tag)
+#else
+#define QENTEM_VERIF_RENDER_STEP(tag)
+#endif
+
 namespace Qentem {
 
 /*
@@ -1051,6 +1059,8 @@ struct TemplateCore {
     // Render
     void render(const TagBit *tag, const TagBit *end, SizeT offset, SizeT end_offset) const {
         while (tag < end) {
+            QENTEM_VERIF_RENDER_STEP(tag);
+
             switch (tag->GetType()) {
                 case TagType::Variable: {
                     renderVariable(tag->GetVariableTag(), offset);
